@@ -10,8 +10,7 @@ The hypothesis of the safety theorems is `safeSched cfg (init n) evs = true`: **
 of the schedule, prefix closed (`safe_prefix`), evaluated by the driver for every schedule of the tie.
 It holds for every schedule when `grace_period=None` (`no_grace_every_schedule_safe`).  It cannot be
 dropped on today's code: `takeover_race_two_holders_witness` (F13; open lock and symlink lock),
-`f13_symlink_needs_no_overlap_witness`, `stalled_waiter_two_holders_witness`,
-`punctual_not_enough_for_symlink_witness`; each of these schedules is replayed on the real code by `verif/props/c07_lock.py` on every run.
+`stalled_waiter_two_holders_witness` (both classes); each of these schedules is replayed on the real code by `verif/props/c07_lock.py` on every run.
 -/
 namespace OptunaVerif.C07Lock
 open OptunaVerif OptunaVerif.FileLock
@@ -146,14 +145,14 @@ theorem takeover_race_two_holders_witness :
 theorem takeover_race_two_holders_witness_symlink :
     liveHolders f13Symlink.final = [1, 2] ∧ f13Symlink.safe = false := by decide
 
-/-- on the symlink lock F13 needs no overlap of the two takeovers (`os.stat` follows the link: the "lock
-changed hands" test watches the journal's mtime): both waiters have watched the dead holder's lock for
-longer than the grace period; 1 takes over *completely* and enters; 2 polls afterwards, sees the
-unchanged journal mtime with its own timer still expired, and breaks 1's live lock.  The schedule even
-satisfies the timing discipline `punctualSched` (which implies safety for the open lock). -/
-theorem f13_symlink_needs_no_overlap_witness :
-    liveHolders f13SymlinkSequential.final = [1, 2] ∧ f13SymlinkSequential.safe = false ∧
-    punctualSched f13SymlinkSequential.cfg 2 (init 3) f13SymlinkSequential.evs = true := by decide
+/-- **the repair fb3aa05** (the symlink lock samples the link's own mtime with `os.lstat`), on the schedule
+that gave two holders before it: both waiters have watched the dead holder's lock for longer than the
+grace period; 1 takes over completely and enters; 2 polls afterwards, finds a lock file with a new stamp,
+restarts its timer and keeps polling.  One holder, the schedule is safe (and punctual). -/
+theorem symlink_sequential_takeovers_now_safe :
+    liveHolders f13SymlinkSequential.final = [1] ∧ f13SymlinkSequential.safe = true ∧
+    punctualSched f13SymlinkSequential.cfg 2 (init 3) f13SymlinkSequential.evs = true ∧
+    pcOf f13SymlinkSequential.final 2 = some .sleep := by decide
 
 /-- **the repair d602c3c**: after a successful takeover the taker restarts its timer with one more clock
 read (`tkRestart`), then sleeps -/
@@ -172,10 +171,15 @@ example : pcOf (run soloTakeoverSymlink.cfg (init 2) (soloTakeoverSymlink.evs.ta
 
 /-- the schedule that ended with two live holders before d602c3c (symlink lock, ONE waiter past the grace
 period, a newcomer wins the re-created lock while the taker sleeps): the taker now sees an unexpired timer
-and keeps polling; one holder, safe -/
+and keeps polling; one holder, safe, punctual -/
 theorem symlink_single_waiter_no_longer_steals :
     liveHolders symlinkAfterTakeover.final = [2] ∧ symlinkAfterTakeover.safe = true ∧
     pcOf symlinkAfterTakeover.final 1 = some .sleep := by decide
+
+/-- the stalled waiter on the symlink lock (same interleaving) -/
+theorem stalled_waiter_two_holders_witness_symlink :
+    liveHolders stalledWaiterSymlink.final = [0, 1] ∧ stalledWaiterSymlink.safe = false ∧
+    stalledWaiterSymlink.final.ws.all (fun wk => !wk.dead) = true := by decide
 
 /-- no crash at all (open lock, two workers): a waiter suspended for longer than the grace period
 between sampling the clock and comparing it removes the fresh lock of a live holder -/
@@ -183,44 +187,44 @@ theorem stalled_waiter_two_holders_witness :
     liveHolders stalledWaiter.final = [0, 1] ∧ stalledWaiter.safe = false ∧
     stalledWaiter.final.ws.all (fun wk => !wk.dead) = true := by decide
 
-/-! ### a timing discipline that implies the hypothesis (open lock) -/
+/-! ### a timing discipline that implies the hypothesis (both classes) -/
 
 /-- `punctualSched cfg g st evs` (decidable, `Model/FileLock.lean`): (H0) the clock never passes
 `stamp + grace` while the creator of the lock file is alive — *every live holder releases within the
 grace period*; (W0) the clock does not move while a live waiter is between its `stat` and the `rename`
 of a takeover; (U) a takeover `rename` finds no other live waiter in that window.  Crashes — also of
-holders — are unrestricted.  For the open lock such a schedule never takes over a live creator's lock. -/
-theorem punctual_schedule_safe (cfg : Cfg) (g : Nat) (hk : cfg.kind = .openExcl) (hg : cfg.grace = some g) (n : Nat)
+holders — are unrestricted.  Such a schedule never takes over a live creator's lock (both classes, since
+repo fb3aa05 made the symlink lock sample the link's own mtime). -/
+theorem punctual_schedule_safe (cfg : Cfg) (g : Nat) (hg : cfg.grace = some g) (n : Nat)
     (evs : List Ev) (hp : punctualSched cfg g (init n) evs = true) : safeSched cfg (init n) evs = true :=
-  safeSched_of_punctual cfg g hk hg evs (init n) (tinv_init g n) hp
+  safeSched_of_punctual cfg g hg evs (init n) (tinv_init g n) hp
 
 -- non-vacuity: the holder dies, the waiter takes over after the grace period — punctual;
 -- the F13 schedule violates (U), the stalled waiter violates (W0)
 example : punctualSched soloTakeoverOpen.cfg 2 (init 2) soloTakeoverOpen.evs = true ∧
+    punctualSched soloTakeoverSymlink.cfg 2 (init 2) soloTakeoverSymlink.evs = true ∧
+    punctualSched f13Symlink.cfg 2 (init 3) f13Symlink.evs = false ∧
     punctualSched f13Open.cfg 2 (init 3) f13Open.evs = false ∧
     punctualSched stalledWaiter.cfg 2 (init 2) stalledWaiter.evs = false := by decide
 
-/-- **mutual exclusion for the open lock when holders are punctual**, waiters are not stalled and
+/-- **mutual exclusion (both classes) when holders are punctual**, waiters are not stalled and
 takeovers are not concurrent — crashes of holders included -/
-theorem mutual_exclusion_punctual (cfg : Cfg) (g : Nat) (hk : cfg.kind = .openExcl) (hg : cfg.grace = some g) (n : Nat)
+theorem mutual_exclusion_punctual (cfg : Cfg) (g : Nat) (hg : cfg.grace = some g) (n : Nat)
     (evs : List Ev) (hp : punctualSched cfg g (init n) evs = true) (w v : Nat) (wk vk : Worker)
     (hw : (run cfg (init n) evs).ws[w]? = some wk) (hv : (run cfg (init n) evs).ws[v]? = some vk)
     (hwl : wk.dead = false) (hvl : vk.dead = false)
     (hwh : holding wk.pc = true) (hvh : holding vk.pc = true) : w = v :=
-  mutual_exclusion cfg n evs (punctual_schedule_safe cfg g hk hg n evs hp) w v wk vk hw hv hwl hvl hwh hvh
+  mutual_exclusion cfg n evs (punctual_schedule_safe cfg g hg n evs hp) w v wk vk hw hv hwl hvl hwh hvh
 
 example : liveHolders soloTakeoverOpen.final = [1] := by decide
 
-/-- the same discipline is still NOT enough for the symlink lock, also without any crash: its `stat`
-watches the journal's mtime, so a waiter that finds the lock held at each of its polls — by *different*
-punctual holders, the second of which has not written yet — and the journal unmodified for longer than
-the grace period, breaks a live lock that is younger than the grace period (`symlinkHandover`).  What the
-symlink lock guarantees is therefore only: a live holder keeps the lock as long as the journal's mtime
-has changed within the grace period as seen by every waiter. -/
-theorem punctual_not_enough_for_symlink_witness :
+/-- the hand-over schedule that gave two holders on the symlink lock before fb3aa05 (no crash, punctual
+holders, the lock changes hands between two polls of a waiter): the waiter now sees the new lock stamp
+and restarts its timer — punctual, safe, one holder -/
+theorem symlink_handover_now_safe :
     punctualSched symlinkHandover.cfg 2 (init 3) symlinkHandover.evs = true ∧
-    symlinkHandover.safe = false ∧ liveHolders symlinkHandover.final = [1, 2] ∧
-    symlinkHandover.final.ws.all (fun wk => !wk.dead) = true := by decide
+    symlinkHandover.safe = true ∧ liveHolders symlinkHandover.final = [2] ∧
+    pcOf symlinkHandover.final 1 = some .sleep := by decide
 
 /-! ### a crashed holder is taken over (C05) -/
 
@@ -231,7 +235,7 @@ clock check, `rename`, `unlink`, timer restart, `sleep`, create succeeds (, `clo
 critical section as the creator of the lock file; 8 calls with the symlink lock, 9 with the open lock. -/
 theorem crashed_holder_taken_over (cfg : Cfg) (g : Nat) (hg : cfg.grace = some g) (st : St) (w : Nat) (wk : Worker)
     (o s : Nat) (hw : st.ws[w]? = some wk) (hlive : wk.dead = false) (hpc : wk.pc = .create)
-    (hlock : st.sh.lock = some (o, s)) (hm : wk.mtime = some (statVal cfg st.sh s))
+    (hlock : st.sh.lock = some (o, s)) (hm : wk.mtime = some s)
     (hlast : wk.last + g < st.sh.now) :
     (run cfg st (stepsOf w (match cfg.kind with | .symlink => 8 | .openExcl => 9))).sh.lock = some (w, st.sh.now) ∧
     pcOf (run cfg st (stepsOf w (match cfg.kind with | .symlink => 8 | .openExcl => 9))) w = some .crit := by
